@@ -202,4 +202,49 @@ func runTransfer(o *Out, r *rand.Rand, thorough bool, _ []string) {
 		a.stop()
 		b.stop()
 	}
+	// the serving side knows the asker by an OLDER record that advertises other versions than the asker does now (it was
+	// upgraded or rolled back and re-published its record): framing follows the record of the live session, not the table's
+	stale := [][2][]uint8{{{0}, {0, 1}}, {{0, 1}, {0}}}
+	for si, st := range stale {
+		mn := newMemNet()
+		ka := keyFromSeed(r)
+		ipA := net.IP{34, 1, 2, byte(1 + si)}
+		a := startNode(mn, r, nodeOpts{ip: ipA, port: 9310, versions: st[0], utpLimit: 50, key: ka})
+		b := startNode(mn, r, nodeOpts{ip: net.IP{34, 2, 3, byte(1 + si)}, port: 9311, versions: []uint8{0, 1}, utpLimit: 50})
+		b.p.AddEnr(signRecPv(ka, ipA, 9310, 1, st[1])) // what b has in its table: sequence number 1, the other version list
+		a.p.AddEnr(b.p.Self())
+		for _, sz := range []int{1500, 5000} {
+			key := []byte(fmt.Sprintf("ks-%d-%d", si, sz))
+			idh := sha256.Sum256(key)
+			val := genBytes(sz, sz%251)
+			_ = b.store.Put(key, idh[:], val)
+			mn.resetSizes()
+			type res struct {
+				flag byte
+				data interface{}
+				err  error
+			}
+			ch := make(chan res, 1)
+			go func() {
+				f, d, err := a.p.VerifFindContent(b.p.Self(), key)
+				ch <- res{f, d, err}
+			}()
+			var out string
+			select {
+			case x := <-ch:
+				if x.err != nil {
+					out = "error"
+				} else if got, ok := x.data.([]byte); ok {
+					out = fmt.Sprintf("flag=%d same=%d maxdgram_ok=%d", x.flag, b2i(bytes.Equal(got, val)), b2i(mn.maxSize() <= 1280))
+				} else {
+					out = fmt.Sprintf("flag=%d notbytes", x.flag)
+				}
+			case <-time.After(40 * time.Second):
+				out = "timeout"
+			}
+			o.Case(fmt.Sprintf("transfer size=%d va=%s vb=0,1 stale=%s", sz, csv(st[0]), csv(st[1])), out)
+		}
+		a.stop()
+		b.stop()
+	}
 }
